@@ -9,6 +9,7 @@ pub mod c25;
 pub mod c26;
 pub mod canon;
 pub mod c31;
+pub mod c34;
 pub mod c32;
 pub mod ll;
 pub mod llrun;
@@ -27,6 +28,7 @@ pub fn replay_fn(kind: &str) -> Result<fn(&Value) -> Outcome> {
         "llrun" => llrun::replay,
         "c07" => c07::replay,
         "c31" => c31::replay,
+        "c34" => c34::replay,
         "c19" => c19::replay,
         "c26" => c26::replay,
         "c25" => c25::replay,
